@@ -63,6 +63,11 @@ fn catalogue() -> Vec<(String, Vec<Type>)> {
         ("SELECT $1, $2".into(), vec![Type::INT4, Type::TEXT]),
         ("SELECT $1, $2".into(), vec![Type::TEXT, Type::INT4]),
         ("SELECT syntax_error".into(), vec![]),
+        // keys are compared exactly: texts that differ only in case or white space are different statements
+        ("SELECT 1 ".into(), vec![]),
+        ("select 1".into(), vec![]),
+        (" SELECT 1".into(), vec![]),
+        ("SELECT  $1".into(), vec![Type::INT4]),
     ]
 }
 
